@@ -18,7 +18,7 @@ CHECKS = {
   "C02": (True, "exploration",
           "proptest-driven generated cases; metamorphic relation across strategies (slice reference vs reader fragmentations/capacities/heap limits/file/mmap/multi-line request), slice run additionally checked against the LineModel",
           "Tens of thousands of generated (matcher, configuration, input) cases; each compares the complete event stream and final byte count of search_slice with 4-8 other strategies: fragmented readers with hook-set buffer capacities down to 0/1 byte, the smallest sufficient heap limit found by bisection, search_path with and without mmap, inputs crossing the 64 KiB default buffer, and all of it again with multi_line(true) requested. Random exploration with shrinking.",
-          "Needs the verif-hooks capacity hook to make the buffer roll on small inputs; Interrupted reads are exercised in C16, not here.",
+          "Needs the verif-hooks capacity hook to make the buffer roll on small inputs; Interrupted reads are exercised in C16, not here. A third of the cases first run another search on the same Searcher (as ripgrep does for every file after the first).",
           "DESIGN.md section 3 C02"),
   "C04": (True, "exploration",
           "proptest-driven generated git repositories; differential oracle = git itself (git ls-files --others --exclude-standard and git check-ignore --no-index)",
@@ -48,12 +48,12 @@ CHECKS = {
   "C09": (True, "exploration",
           "proptest-driven generated (pattern, input, flag set) cases; the real binary's stdout is parsed by a grammar derived from the flags and every record checked against the file bytes (round-trip), columns/submatches against the per-line regex oracle",
           "15 000 generated cases (200 000 thorough) over -n -b --column --vimgrep -H/-I --heading --null -A -B --json -U --crlf -v -i, mmap on/off, inputs with invalid UTF-8, multi-byte characters, very long lines (up to 75 KB), CRLF and missing final newline: every printed body must be a line of the file byte for byte with its own line number / offset, column = first match start (all matches for --vimgrep), separators exactly between non-adjacent lines; JSON decoded lines/submatches must reproduce the file bytes, text vs base64 by UTF-8 validity in both directions, begin (match|context)* end. Random exploration with shrinking.",
-          "Line selection itself is C01/C03; under -U the column is asserted only for the first line of a block; columns under -v are excluded (undocumented); two known shapes (CRLF re-termination; the C10 trailing-empty-match shape) are tolerated / excluded by exact signature.",
+          "Line selection itself is C01/C03; under -U the column is asserted only for the first line of a block (--vimgrep -U: the column must lie inside the printed line and a match of the real matcher must start there); columns under -v are excluded (undocumented); two known shapes (CRLF re-termination; the C10 trailing-empty-match shape) are tolerated / excluded by exact signature.",
           "DESIGN.md section 3 C09"),
   "C10": (True, "exploration",
           "proptest-driven generated trees/patterns/flags; metamorphic relations between nine reporting modes of the real rg binary",
           "Thousands of generated (tree, pattern, flags) cases, a third with patterns that match the empty string; each runs the real binary under standard, -c, --count-matches, -o, -l, --files-without-match, -q, --json and --stats and checks the documented pairwise relations per file and in total (counts, submatches, partitions of the searched files, exit status, stats sums). Random exploration with shrinking.",
-          "Documented mode normalisations are part of the relation (-v --count-matches = --count; under -U --count may equal --count-matches; -o not compared under -U/-v); one known finding (empty match at the end of an unterminated last line) tolerated by exact shape.",
+          "Documented mode normalisations are part of the relation (-v --count-matches = --count; under -U --count may equal --count-matches; -o not compared under -v; under -U on the multi-line printing path -o lines are compared with the non-empty line pieces of the JSON submatches); two known findings (empty match at the end of an unterminated last line; multi-line -o has no record for empty / terminator-only matches) tolerated by exact shape.",
           "DESIGN.md section 3 C10"),
   "C11": (True, "exploration",
           "exhaustive small-grammar pattern enumeration + random patterns + repository pattern corpus; per pattern an automata-product search generates a witness line iff one exists, and the witness is executed against the real matcher (concrete oracle)",
@@ -63,7 +63,7 @@ CHECKS = {
   "C12": (True, "exploration",
           "exhaustive path sweep (all paths over {a,b,.,/,-,A} up to length 6) per generated glob set for set-vs-member consistency; proptest-driven (glob, path) pairs against an independent backtracking glob model",
           "1000 generated glob sets (10 000 thorough) x all 55 986 paths (335 922 thorough): GlobSet::matches must equal the set of member globs that match individually, for every path; plus 100k (glob, path) pairs and 40k random sets with long / non-UTF-8 / newline paths checked against a from-scratch matcher of the documented syntax. Paths exhaustive to the bound per set; sets sampled.",
-          "The GlobModel encodes the crate documentation; shapes the documentation is silent on (leading '/', '//', classes vs '/', non-ASCII under ?/classes) are excluded from the meaning oracle only and counted.",
+          "The GlobModel encodes the crate documentation; shapes the documentation is silent on (leading '/', '//', classes vs '/', bytes >= 0x80 that may belong to a valid UTF-8 sequence under ?/negated classes) are excluded from the meaning oracle only and counted; bytes that occur in no valid UTF-8 sequence are one unit under every reading and are decided.",
           "DESIGN.md section 3 C12"),
   "C13": (True, "exploration",
           "proptest-driven generated multi-line patterns and inputs; oracle = matches enumerated with Matcher::find_at over the whole input mapped to lines + LineModel",
@@ -76,9 +76,9 @@ CHECKS = {
           "Patterns are restricted to a NUL-indifferent set so that 'a line matches' means the same before and after NUL conversion; --null / --null-data / --json are outside the stdout NUL scan.",
           "DESIGN.md section 3 C14"),
   "C15": (True, "fault_enumeration",
-          "fault enumeration at the CLI: generated trees x injected faults (mode-000 files/dirs as uid 65534, dangling symlinks, missing paths, read errors, invalid arguments) x 7 modes x -j1/-j4, and stdout closed after every k bytes; decision-table oracle + differential against a fault-free run",
-          "3 000 fault cases (60 000 thorough; a fifth of them with --no-messages) with both matching and faulty entries populated in every cell of the (match x fault x mode x threads) table, compared with the exit-status decision table, per-file diagnostics on stderr and a fault-free reference run on the tree minus the faulty entries; ~400 invalid-argument combinations (status 2, empty stdout); closed-pipe runs (a quarter of them through --pre cat) for every k up to 320 bytes (4 KiB thorough) and buffer-boundary k for outputs up to 400 KiB (status 0, no diagnostic, termination).",
-          "Files removed or truncated between listing and opening are not reachable from the CLI; closed pipe combined with a per-file fault is left unasserted (the property gives no rule); a watchdog expiry is inconclusive unless a second, longer run confirms it.",
+          "fault enumeration at the CLI: generated trees x injected faults (mode-000 files/dirs as uid 65534, dangling symlinks, missing paths, read errors, files removed or truncated between listing and opening via a verif-hooks build of rg, invalid arguments) x 7 modes x -j1/-j4, and stdout closed after every k bytes; decision-table oracle + differential against a fault-free run",
+          "3 000 fault cases (60 000 thorough; a fifth of them with --no-messages) with both matching and faulty entries populated in every cell of the (match x fault x mode x threads) table, compared with the exit-status decision table, per-file diagnostics on stderr and a fault-free reference run on the tree minus the faulty entries; ~400 invalid-argument combinations x search target (directory, one file, two files, stdin; status 2, empty stdout); 600 vanish cases (12 000 thorough: 2-7 files, each removed or emptied right before it is opened; other files' results unchanged, one diagnostic per removed file, status from the table); closed-pipe runs (a quarter of them through --pre cat) for every k up to 320 bytes (4 KiB thorough) and buffer-boundary k for outputs up to 400 KiB (status 0, no diagnostic, termination).",
+          "Files removed or truncated between listing and opening are injected by the hook build (VERIF_FAULT_BEFORE_OPEN), a file shrinking while it is being read is not reached; closed pipe combined with a per-file fault is left unasserted (the property gives no rule); a watchdog expiry is inconclusive unless a second, longer run confirms it.",
           "DESIGN.md section 3 C15"),
   "C16": (True, "fault_enumeration",
           "fault enumeration over one generated run: sink stop and sink error at every event index, reader error and Interrupted at every read index; oracle = prefix of the uninterrupted event log",
@@ -134,8 +134,8 @@ def main():
         "version": 1,
         "setup_cmd": "./check --build-only",
         "hooks": {
-            "guard": "cargo feature verif-hooks (crates grep-searcher, grep-regex, ignore)",
-            "enable": "the harness crate /verif/harness depends on /repo/crates/{searcher,regex,ignore} by path with features = [\"verif-hooks\"]; the rg binary used by CLI-level checks is built without the feature",
+            "guard": "cargo feature verif-hooks (crates grep-searcher, grep-regex, ignore; root package ripgrep: verif-hooks = [\"ignore/verif-hooks\"] plus the fault-before-open hook in crates/core/search.rs)",
+            "enable": "the harness crate /verif/harness depends on /repo/crates/{searcher,regex,ignore} by path with features = [\"verif-hooks\"]; the rg binary used by CLI-level checks is built without the feature; a second binary (target/rg-jitter) is built with --features verif-hooks and used only for C08's timing jitter (VERIF_YIELD_JITTER) and C15's files vanishing between listing and opening (VERIF_FAULT_BEFORE_OPEN)",
             "baseline_off_cmd": "cd /repo && cargo test --workspace --no-fail-fast --offline",
             "source_commits": hook_commits(),
             "add_only": True,
